@@ -16,7 +16,10 @@ from .common import Check, lean_driver, quiet_naunet, silenced, tier_and_seed
 
 quiet_naunet()
 
-C07_THEOREMS = ["Naunet.C07.kida_roundtrip", "Naunet.C18.native_roundtrip", "Naunet.C07.markers_never_species",
+C07_THEOREMS = ["Naunet.C07.kida_roundtrip", "Naunet.C07.umist_roundtrip", "Naunet.C07.leeds_roundtrip",
+                "Naunet.C07.uclchem_roundtrip_plain", "Naunet.C07.uclchem_roundtrip_marker", "Naunet.C18.native_roundtrip",
+                "Naunet.C07.std_roundtrip", "Naunet.C07.directive_no_reaction", "Naunet.C07.data_line", "Naunet.C07.readKrome_append",
+                "Naunet.C07.late_directive", "Naunet.C07.comment_keeps_state", "Naunet.C07.markers_never_species",
                 "Naunet.C07.readFile_append", "Naunet.C07.readFile_blank", "Naunet.C07.readFile_data",
                 "Naunet.Codec.splitOnC_joinC", "Naunet.Codec.words_columns", "Naunet.Codec.words_joinC_space"]
 C18_THEOREMS = ["Naunet.C18.native_roundtrip", "Naunet.C18.second_cycle", "Naunet.C18.type_code_shared", "Naunet.C18.F15_witness", "Naunet.Codec.splitOnC_joinC",
@@ -35,6 +38,7 @@ PSEUDO = ["CR", "CRP", "XRAY", "Photon", "PHOTON", "CRPHOT", "X", "M", "p", "o",
 GAS = ["H", "H2", "H+", "H-", "H2+", "H3+", "He", "He+", "C", "C+", "O", "CO", "HCO+", "OH", "H2O", "H3O+", "CH4", "N2", "NH3",
        "N2H+", "Si", "SiO", "Mg+", "e-", "C2H5OH", "CH3OCH3", "HC3N", "Si++++"]
 LONG = ["CH3COOCH3", "C2H5OH2+", "CH3CH2CHO", "H2CCCCCCH+"]  # names that fill a column
+LONGER = ["CH3CH2CH2CH2OH", "CH3CH2CH2CH2OH2+", "CH3OCH2CH2OCH3", "HCCCCCCCCCCCN"]  # wider than any native column (delimited formats only)
 
 
 def pick_species(rng, n, pool, allow_repeat=True):
@@ -55,8 +59,8 @@ def num(rng, kind):
 def gen_abstract(rng, fmt):
     """abstract reaction for a format (respecting that format's arity limits)"""
     maxre, maxpr = {"kida": (3, 5), "leeds": (3, 5), "umist": (2, 4), "krome": (3, 4), "uclchem": (3, 4), "naunet": (3, 5)}[fmt]
-    width = {"kida": 10, "leeds": 9}.get(fmt, 12)
-    pool = [s for s in GAS + (LONG if rng.random() < 0.3 else []) if len(s) <= width]
+    width = {"kida": 10, "leeds": 9}.get(fmt, 99)
+    pool = [s for s in GAS + (LONG + LONGER if rng.random() < 0.3 else []) if len(s) <= width]
     if fmt == "krome":
         pool = [s for s in pool if s not in ("e-",)] + ["E"]
     nre = rng.randint(1, maxre)
@@ -158,6 +162,19 @@ def gen_file(rng, fmt, n):
             lines.append(rng.choice(["", "   ", "\t"]))
         if fmt == "krome" and rng.random() < 0.2:
             lines.append(rng.choice(["# a comment", "// another", "", "#1,H,H,,H2"]))
+        if fmt == "krome" and rng.random() < 0.12:   # directives may come anywhere; the layout may change in mid-file
+            kind = rng.choice(["format", "common", "var", "hnuclei"])
+            if kind == "format":
+                fmtkeys = rng.choice([["idx", "R", "R", "R", "P", "P", "P", "P", "Tmin", "Tmax", "rate"],
+                                      ["idx", "r", "r", "p", "p", "p", "tmin", "tmax", "rate"],
+                                      ["Tmin", "Tmax", "idx", "R", "R", "P", "P", "P", "rate"]])
+                lines.append("@format:" + ",".join(fmtkeys))
+            elif kind == "common":
+                lines.append(f"@common:user_x{i},user_y{i}")
+            elif kind == "var":
+                lines.append(f"@var: v{i} = Tgas*{i}.5d0")
+            else:
+                lines.append("@var:Hnuclei = get_Hnuclei(n(:))")
         r = gen_abstract(rng, fmt)
         idx = i + 1
         if fmt == "krome":
@@ -225,12 +242,12 @@ def read_network(fmt, path):
 
 def run_c07(argv):
     tier, seed = tier_and_seed(argv)
-    chk = Check("C07", tier, seed, ["NaunetProps.C07"], C07_THEOREMS, C07_RULE)
+    chk = Check("C07", tier, seed, ["NaunetProps.C07", "NaunetProps.C07b", "NaunetProps.C07c"], C07_THEOREMS, C07_RULE)
     chk.prove()
     rng = chk.rng
     nfiles = 3 if tier == "quick" else 20
     nlines = 12 if tier == "quick" else 40
-    reqs, pend = [], []
+    reqs, pend, kreqs, kpend = [], [], [], []
     for fmt in ["kida", "umist", "leeds", "krome", "uclchem", "naunet"]:
         for k in range(nfiles):
             lines, exp = gen_file(rng, fmt, nlines)
@@ -276,6 +293,14 @@ def run_c07(argv):
             if fmt != "krome":
                 reqs.append({"cmd": "decode", "fmt": fmt, "lines": lines, "pseudo": PSEUDO})
                 pend.append((fmt, lines, got))
+            else:
+                from naunet.reactions.kromereaction import KROMEReaction
+                kreqs.append({"cmd": "kromefile", "lines": f.read_text().splitlines(keepends=True), "pseudo": PSEUDO})
+                kpend.append((lines, {"format": KROMEReaction.reacformat, "commons": list(KROMEReaction._user_commons),
+                                      "vars": list(KROMEReaction._user_vars),
+                                      "reactions": [{"idx": g.idxfromfile, "reactants": [s.name for s in g.reactants],
+                                                     "products": [s.name for s in g.products], "tmin": g.temp_min, "tmax": g.temp_max,
+                                                     "rate": g.rate_string} for g in got]}))
     if getattr(chk, "lean_ok", False) and reqs:
         try:
             answers = lean_driver(reqs)
@@ -301,6 +326,33 @@ def run_c07(argv):
                                                                  g.beta, g.gamma, g.temp_min, g.temp_max, g.idxfromfile])
                     break
             if ok:
+                chk.traces += 1
+    # the KROME reader: class state after the file (layout in force, @common, @var) and every decoded line
+    if getattr(chk, "lean_ok", False) and kreqs:
+        try:
+            answers = lean_driver(kreqs)
+        except Exception as e:
+            chk.corr_break("driver", None, None, str(e)[:300])
+            answers = []
+        for (lines, want), ans in zip(kpend, answers):
+            if "error" in ans:
+                chk.corr_break("krome-reader", {"lines": lines[:5]}, ans, None)
+                continue
+            try:
+                fl = lambda x, d: d if x is None else float(x)
+                got_m = {"format": ans["format"], "commons": ans["commons"], "vars": ans["vars"],
+                         "reactions": [{"idx": int(r["idx"]) if r["idx"] is not None else -1, "reactants": r["reactants"], "products": r["products"],
+                                        "tmin": fl(r["tmin"], -1.0), "tmax": fl(r["tmax"], -1.0), "rate": r["rate"]} for r in ans["reactions"]]}
+            except (ValueError, TypeError) as e:
+                chk.corr_break("krome-reader", {"lines": lines[:5]}, ans, f"model fields not numeric: {e}")
+                continue
+            if got_m != want:
+                diff = [k for k in want if want[k] != got_m[k]]
+                first = None
+                if diff == ["reactions"]:
+                    first = next(((a, b) for a, b in zip(got_m["reactions"], want["reactions"]) if a != b), (len(got_m["reactions"]), len(want["reactions"])))
+                chk.corr_break("krome-reader", {"lines": lines[:8], "differs_in": diff}, first or {k: got_m[k] for k in diff}, {k: want[k] for k in diff} if not first else None)
+            else:
                 chk.traces += 1
     return chk.finish()
 
@@ -393,6 +445,18 @@ def run_c18(argv):
                 pend.append(f"{r:naunet}")
             if k == 0:
                 chk.sample({"input_format": fmt, "written": t1.split("\n")[0]})
+    # export + re-render of whole projects (files *and* configuration): the C20 machinery on descriptions that carry rate
+    # modifiers (numbers and expressions), so that what the exported project computes is compared with the direct rendering
+    from . import c20
+    descs = []
+    for k in range(3 if tier == "quick" else 15):
+        d = c20.gen_desc(rng, k)
+        while d["replacement"]:
+            d = c20.gen_desc(rng, k)
+        d["allowed"], d["required"], d["cooling"] = [], [], []
+        d["rate_modifier"] = {str(rng.choice([1, 2, 3])): rng.choice([0.0, 0, "0.0", 2.5e-10]), "5": rng.choice(["2.0 * zeta", 0.0, "1.0e-10"])}
+        descs.append(d)
+    c20.process(chk, descs, [])
     if getattr(chk, "lean_ok", False) and reqs:
         try:
             answers = lean_driver(reqs)
